@@ -68,3 +68,37 @@ func TestAcceptanceProbe(t *testing.T) {
 		}
 	}
 }
+
+func TestExchangeProbe(t *testing.T) {
+	if os.Getenv("VERIF_PROBE") == "" {
+		t.Skip("set VERIF_PROBE=1")
+	}
+	classes := map[string]int{}
+	msgs := map[string]int{}
+	strip := regexp.MustCompile(`[0-9]+`)
+	rapid.Check(t, func(rt *rapid.T) {
+		doc := specgen.GenExchangeDoc(rt, specgen.ExchangeOptions{Formats: rapid.Bool().Draw(rt, "formats"), TimeFormat: "date-time"})
+		out := regen.Generate(doc.Render(), regen.ClientServer(), "", "api")
+		classes[out.Class]++
+		if out.Class != regen.OK {
+			m := out.Err
+			key := strip.ReplaceAllString(m, "N")
+			if len(key) > 200 {
+				key = key[len(key)-200:]
+			}
+			msgs[key]++
+		}
+	})
+	fmt.Println("CLASSES", classes)
+	var keys []string
+	for k := range msgs {
+		keys = append(keys, k)
+	}
+	sort.Slice(keys, func(i, j int) bool { return msgs[keys[i]] > msgs[keys[j]] })
+	for i, k := range keys {
+		if i > 25 {
+			break
+		}
+		fmt.Printf("%4d %s\n", msgs[k], k)
+	}
+}
